@@ -18,6 +18,11 @@ lowered with clang, translated to C (ir2c --yield: a hook before each atomic acc
 Two CBMC native threads each running get() were tried and are NOT usable: CBMC stops with "pointer handling for concurrency
 is unsound" (bucket heads and Next links are pointers read from shared memory); see coverage["outside"].
  (c) ConcurrentFlyweight<SeqConcurrentLanes,int>::findOrInsert, sequential, from a symbolic table / lane state (slot reservation).
+ (d) findOrInsert + fetch with a second lane: lane B's complete findOrInsert(kB) + fetch(index) is one environment step placed before
+     a chosen shared access of lane A's findOrInsert(kA) (every atomic access and every plain load/store through a pointer in
+     findOrInsert and the inlined get is a site; the site and the lanes' reservation state are enumerated outside the query, the
+     keys are symbolic): an index another lane can learn is fetchable at once and yields the key, both lanes agree on the index of
+     equal keys, the losing lane leaves no slot dangling or overwritten, reservations stay disjoint.
 Outside: growth under lock-all (tryGrow is cut out and asserted unreachable), iteration across growth, the constructor,
 ConcurrentFlyweight (slot reservation), SymbolTableImpl / RecordTableImpl (std::string, per-arity maps), weak memory."""
 import os
@@ -744,11 +749,24 @@ FWC_HARNESS = r"""
 #include "verif_rt.h"
 #define MAXN (PRE + 4)
 static void env_point(int site);
-#define VERIF_YIELD_AT(k) env_point(k)
+#ifdef LOGSITES
+static void log_site(int site, void* p);
+#define VERIF_YIELD_ATP(k, p) log_site(k, (void*)(p))
+#else
+#define VERIF_YIELD_ATP(k, p) env_point(k)
+#endif
 #include "fwc_y.c"
 typedef NODE_T NODE;
-NODE POOL[MAXN]; int pool_used = 0;
-uint8_t* _Znwm(uint64_t n) { VERIF_ASSERT(n == sizeof(NODE), "only bucket nodes are allocated"); VERIF_ASSERT(pool_used < MAXN, "pool large enough"); return (uint8_t*)&POOL[pool_used++]; }
+/* operator new -> typed static cells.  Set-up allocations take POOL[0..PRE+2); the (at most one) allocation inside lane A's operation and
+   the one inside lane B's have fixed cells: node identity stays concrete whatever the lanes' reservation state is */
+NODE POOL[MAXN]; int pool_used = 0; int setup = 1, usedA = 0, usedB = 0;
+int in_op = 0, in_env = 0, env_taken = 0;
+uint8_t* _Znwm(uint64_t n) {
+  VERIF_ASSERT(n == sizeof(NODE), "only bucket nodes are allocated");
+  if (setup) { VERIF_ASSERT(pool_used < PRE + 2, "pool large enough"); return (uint8_t*)&POOL[pool_used++]; }
+  if (in_env) { VERIF_ASSERT(!usedB, "one allocation per operation"); usedB = 1; return (uint8_t*)&POOL[PRE + 3]; }
+  VERIF_ASSERT(!usedA, "one allocation per operation"); usedA = 1; return (uint8_t*)&POOL[PRE + 2];
+}
 uint8_t* _Znam(uint64_t n) { VERIF_ASSERT(0, "operator new[] (growth) is outside the claim and must not be reached"); __CPROVER_assume(0); return 0; }
 void _ZdlPv(uint8_t* p) { VERIF_ASSERT(0, "nothing is freed"); }
 void _ZdaPv(uint8_t* p) { VERIF_ASSERT(0, "nothing is freed"); }
@@ -762,18 +780,22 @@ int64_t nondet_i64(void);
 #endif
 #define NONE 0xffffffffffffffffULL
 /* inputs, one variable each so that they can be read from the trace */
-int64_t FC_NEXT0, FC_PK0, FC_PK1, FC_PX0, FC_PX1, FC_RESA, FC_SA, FC_RESB, FC_SB, FC_KA, FC_KB;
-int32_t PK[PRE + 1]; uint64_t PX[PRE + 1]; NODE* PN[PRE + 1];
-int in_op = 0, in_env = 0, env_taken = 0; int32_t KA, KB; uint64_t outA[2], outB[2];
+int64_t FC_PK0, FC_PK1, FC_RESA, FC_RESB, FC_KA, FC_KB;
+int32_t PK[PRE + 1]; NODE* PN[PRE + 1];
+int32_t KA, KB; uint64_t outA[2], outB[2];
 /* lane B: a complete findOrInsert(KB) through its own lane, then it uses the index it learned at once */
 static void lane_b(void) {
   in_env = 1; env_taken = 1;
   k_fw_find_or_insert(1, KB, outB);
-  VERIF_ASSERT(k_fw_slot_set(outB[0]), "the slot of an index returned to another lane is filled (fetch would dereference it)");
+  VERIF_ASSERT(outB[0] < 8 && k_fw_slot_set(outB[0]), "the slot of an index returned to another lane is filled (fetch would dereference it)");
   VERIF_ASSERT((int32_t)k_fw_fetch(1, outB[0]) == KB, "an index returned to another lane can be fetched at once and yields the key");
   in_env = 0;
 }
 static void env_point(int site) { if (in_op && !in_env && !env_taken && site == SITE) lane_b(); }
+#ifdef LOGSITES
+/* native discovery run: which sites does lane A's operation pass, and does the access go to node memory (private until published)? */
+static void log_site(int site, void* p) { if (in_op && !in_env) printf("SITE %d %s\n", site, p == 0 ? "atomic" : ((char*)p >= (char*)POOL && (char*)p < (char*)(POOL + MAXN)) ? "node" : "shared"); fflush(stdout); }
+#endif
 #ifdef VERIF_NATIVE
 int main(int argc, char** argv) {
   ac = argc; av = argv;
@@ -781,45 +803,45 @@ int main(int argc, char** argv) {
 int main(void) {
 #endif
   verif_init_vtables();
-  FC_NEXT0 = nondet_i64(); uint64_t next0 = (uint64_t)FC_NEXT0; __CPROVER_assume(next0 <= 4);
-  k_fw_init(1, next0, 8, 0);
+  /* canonical layout: the PRE indexed keys have indices 0..PRE-1, slot PRE belongs to lane A, slot PRE+1 to lane B (reserved with its prepared
+     node, or simply unused), NextSlot = PRE+2 of 8 slots: no growth */
+  k_fw_init(1, PRE + 2, 8, 0);
   for (int i = 0; i < PRE; i++) {
-    int64_t k = nondet_i64(), x = nondet_i64(); __CPROVER_assume(k >= 0 && k < 8);
-    if (i == 0) { FC_PK0 = k; FC_PX0 = x; } else { FC_PK1 = k; FC_PX1 = x; }
-    PK[i] = (int32_t)k; PX[i] = (uint64_t)x; __CPROVER_assume(PX[i] < next0);
-    for (int j = 0; j < i; j++) __CPROVER_assume(PK[j] != PK[i] && PX[j] != PX[i]);
-    PN[i] = k_fw_mknode(PX[i]); k_fw_link(PN[i], PK[i]); k_fw_set_slot(PX[i], PN[i]); }
-  /* both lanes: no reservation, or a slot reserved earlier (below NextSlot, unused, empty, distinct) with its prepared node */
-  FC_RESA = nondet_i64(); __CPROVER_assume(FC_RESA == 0 || FC_RESA == 1); uint64_t sa = NONE, sb = NONE;
-  if (FC_RESA) { FC_SA = nondet_i64(); sa = (uint64_t)FC_SA; __CPROVER_assume(sa < next0); for (int j = 0; j < PRE; j++) __CPROVER_assume(PX[j] != sa); k_fw_set_handle(0, sa, k_fw_mknode(sa)); }
-  FC_RESB = nondet_i64(); __CPROVER_assume(FC_RESB == 0 || FC_RESB == 1);
-  if (FC_RESB) { FC_SB = nondet_i64(); sb = (uint64_t)FC_SB; __CPROVER_assume(sb < next0 && sb != sa); for (int j = 0; j < PRE; j++) __CPROVER_assume(PX[j] != sb); k_fw_set_handle(1, sb, k_fw_mknode(sb)); }
+    int64_t k = nondet_i64(); __CPROVER_assume(k >= 0 && k < 8);
+    if (i == 0) FC_PK0 = k; else FC_PK1 = k;
+    PK[i] = (int32_t)k; for (int j = 0; j < i; j++) __CPROVER_assume(PK[j] != PK[i]);
+    PN[i] = k_fw_mknode(i); k_fw_link(PN[i], PK[i]); k_fw_set_slot(i, PN[i]); }
+  NODE* ra = k_fw_mknode(PRE); NODE* rb = k_fw_mknode(PRE + 1);
+  /* the lanes' reservation state is enumerated outside the query (symbolic: 4x larger formulas, measured) */
+  FC_RESA = RESA; if (FC_RESA) k_fw_set_handle(0, PRE, ra);
+  FC_RESB = RESB; if (FC_RESB) k_fw_set_handle(1, PRE + 1, rb);
   FC_KA = nondet_i64(); FC_KB = nondet_i64(); __CPROVER_assume(FC_KA >= 0 && FC_KA < 8 && FC_KB >= 0 && FC_KB < 8); KA = (int32_t)FC_KA; KB = (int32_t)FC_KB;
+  setup = 0;
   in_op = 1;
   k_fw_find_or_insert(0, KA, outA);
   in_op = 0;
   if (SITE == NSITES && !env_taken) lane_b();           /* lane B after lane A's operation has returned */
   __CPROVER_assume(env_taken);                          /* executions that do not reach the chosen site belong to other queries */
   /* lane A uses its index */
-  VERIF_ASSERT(k_fw_slot_set(outA[0]) && (int32_t)k_fw_fetch(0, outA[0]) == KA, "the index returned to the operation's lane fetches its key");
+  VERIF_ASSERT(outA[0] < 8 && k_fw_slot_set(outA[0]) && (int32_t)k_fw_fetch(0, outA[0]) == KA, "the index returned to the operation's lane fetches its key");
   VERIF_ASSERT((KA == KB) == (outA[0] == outB[0]), "equal keys get the same index, different keys different indices");
   VERIF_ASSERT(!(KA == KB && outA[1] && outB[1]), "a key is inserted by at most one lane");
   /* the table: every key of the map has its slot, the slot points to its entry */
   int na = -1, nb = -1; for (int j = 0; j < PRE; j++) { if (PK[j] == KA) na = j; if (PK[j] == KB) nb = j; }
-  for (int j = 0; j < PRE; j++) VERIF_ASSERT(k_fw_find(PK[j]) == PX[j] && (int32_t)k_fw_slot_key(PX[j]) == PK[j] && k_fw_slot_index(PX[j]) == PX[j], "existing entries keep their index and slot");
-  if (na >= 0) VERIF_ASSERT(outA[0] == PX[na] && !outA[1], "an indexed key returns its index and is not re-inserted");
-  if (nb >= 0) VERIF_ASSERT(outB[0] == PX[nb] && !outB[1], "an indexed key returns its index and is not re-inserted");
+  for (int j = 0; j < PRE; j++) VERIF_ASSERT(k_fw_find(PK[j]) == j && (int32_t)k_fw_slot_key(j) == PK[j] && k_fw_slot_index(j) == j, "existing entries keep their index and slot");
+  if (na >= 0) VERIF_ASSERT(outA[0] == (uint64_t)na && !outA[1], "an indexed key returns its index and is not re-inserted");
+  if (nb >= 0) VERIF_ASSERT(outB[0] == (uint64_t)nb && !outB[1], "an indexed key returns its index and is not re-inserted");
   VERIF_ASSERT(k_fw_find(KA) == outA[0] && (int32_t)k_fw_slot_key(outA[0]) == KA && k_fw_slot_index(outA[0]) == outA[0], "the slot of the returned index points to the entry of the key, which maps to the index");
   VERIF_ASSERT(k_fw_find(KB) == outB[0] && (int32_t)k_fw_slot_key(outB[0]) == KB && k_fw_slot_index(outB[0]) == outB[0], "the slot of the returned index points to the entry of the key, which maps to the index");
   VERIF_ASSERT(k_fw_mapsize() == PRE + (na < 0) + (nb < 0 && KB != KA), "the map holds exactly the old keys and the new ones");
-  /* lanes: a lane that did not insert keeps a reservation whose slot is empty and used by nobody; one that inserted has none */
+  /* lanes: a lane that did not insert keeps a reservation whose slot is empty and is nobody's index; one that inserted has none */
   for (int l = 0; l < 2; l++) {
     uint64_t ins = l ? outB[1] : outA[1]; uint64_t hs = k_fw_handle_slot(l);
     if (ins) VERIF_ASSERT(hs == NONE && !k_fw_handle_has_node(l), "a lane that inserted has consumed its reservation");
-    else VERIF_ASSERT(hs != NONE && hs < k_fw_nextslot() && k_fw_handle_has_node(l) && !k_fw_slot_set(hs) && hs != outA[0] && hs != outB[0], "a lane that did not insert keeps its reservation: slot empty, not the index of any key");
+    else VERIF_ASSERT(hs != NONE && hs < k_fw_nextslot() && hs < 8 && k_fw_handle_has_node(l) && !k_fw_slot_set(hs) && hs != outA[0] && hs != outB[0], "a lane that did not insert keeps its reservation: slot empty, not the index of any key");
   }
   VERIF_ASSERT(k_fw_handle_slot(0) == NONE || k_fw_handle_slot(0) != k_fw_handle_slot(1), "the two lanes never hold the same reserved slot");
-  VERIF_ASSERT(k_fw_nextslot() == next0 + (FC_RESA ? 0 : 1) + (FC_RESB ? 0 : 1), "NextSlot advances exactly once per newly reserved slot");
+  VERIF_ASSERT(k_fw_nextslot() == PRE + 2 + (FC_RESA ? 0 : 1) + (FC_RESB ? 0 : 1), "NextSlot advances exactly once per newly reserved slot");
 #ifdef WITNESS
   __CPROVER_assert(0, "witness");
 #endif
@@ -899,7 +921,8 @@ def _prepare_fwc(work, tier):
     open(ll, "w").write(t)
     c24.strip_personality(ll)
     plain = K.translate(ll, os.path.join(work, "fwc.c"))
-    open(plain, "w").write(_post_fw(open(plain).read(), t, maps, "two-lane flyweight"))
+    psrc = _post_fw(open(plain).read(), t, maps, "two-lane flyweight")
+    open(plain, "w").write(psrc)
     drv = os.path.join(work, "drvfwc.c")
     open(drv, "w").write(FWC_DRIVER.replace("TRYGROW", maps[0]))
     nlines = K.differential(work, drv, plain, cpp, extra_cxx=["-fno-exceptions"], extra_c=["-D__dso_handle=verif_dso_handle"])
@@ -916,19 +939,21 @@ def _prepare_fwc(work, tier):
     for m in funcs:
         out = []
         for ln in m.group(0).splitlines():
-            kind = None
+            kind, ptr = None, "0"
             if "VERIF_YIELD();" in ln:
-                kind = "atomic"
-                ln = ln.replace("VERIF_YIELD();", "").rstrip()
-                ln = re.sub(r"^(\s*)\s*", r"\1", ln)
-            elif re.match(r"^\s*\*[^=;]+ = [^;]*;\s*$", ln) and not re.match(r"^\s*\*\(*&?v_\w+_mem\b", ln):
-                kind = "store"
-            elif re.match(r"^\s*v_\w+ = \(\*[^;]*\);\s*$", ln) and "_mem)" not in ln:
-                kind = "load"
+                kind = "atomic-write" if re.search(r"VERIF_CMPXCHG|VERIF_ATOMIC_RMW|VERIF_ATOMIC_STORE", ln) else "atomic-read"
+                ln = ln.replace("VERIF_YIELD();", "")
+            else:
+                ms = re.match(r"^\s*\*(.+?) = [^;]*;\s*$", ln)
+                ml = re.match(r"^\s*v_\w+ = \(\*(.*)\);\s*$", ln)
+                if ms and not re.match(r"^\(*&?v_\w+_mem\b", ms.group(1)):
+                    kind, ptr = "store", ms.group(1)
+                elif ml and "_mem" not in ml.group(1):
+                    kind, ptr = "load", ml.group(1)
             if kind:
                 ind = re.match(r"^\s*", ln).group(0)
-                out.append("%sVERIF_YIELD_AT(%d); %s" % (ind, cnt[0], ln.strip()))
-                kinds[cnt[0]] = (kind, ln.strip()[:90])
+                out.append("%sVERIF_YIELD_ATP(%d, %s); %s" % (ind, cnt[0], ptr, ln.strip()))
+                kinds[cnt[0]] = {"kind": kind, "statement": ln.strip()[:80], "function": "findOrInsert" if "12findOrInsert" in m.group(1) else "get"}
                 cnt[0] += 1
             else:
                 out.append(ln)
@@ -937,14 +962,88 @@ def _prepare_fwc(work, tier):
         pos = m.end()
     pieces.append(ysrc[pos:])
     ysrc = "".join(pieces).replace("VERIF_YIELD();", "")
-    open(ypath, "w").write(_post_fw(ysrc, t, maps, "two-lane flyweight (yield)"))
+    ysrc = _post_fw(ysrc, t, maps, "two-lane flyweight (yield)")
+    open(ypath, "w").write(ysrc)
     # the yield translation is what CBMC and the replays see: validate it too
     yw = os.path.join(work, "fwc_y_plain.c")
-    open(yw, "w").write('#define VERIF_YIELD_AT(k)\n#include "fwc_y.c"\n')
+    open(yw, "w").write('#define VERIF_YIELD_ATP(k, p)\n#include "fwc_y.c"\n')
     nlines += K.differential(work, drv, yw, cpp, extra_cxx=["-fno-exceptions"], extra_c=["-D__dso_handle=verif_dso_handle"])
     h = os.path.join(work, "hfwc.c")
     open(h, "w").write(FWC_HARNESS)
-    return {"h": h, "cpp": cpp, "nlines": nlines, "sites": kinds}
+    # discovery (native, IR-derived C): which sites lane A passes for each reservation state, and whether the access is to node memory
+    nsites = cnt[0]
+    reach = {0: set(), 1: set()}
+    reach0 = {0: set(), 1: set()}             # the same with no old key in the table
+    for pre, rset in ((1, reach), (0, reach0)):
+        for resa in (0, 1):
+            exe = os.path.join(work, "fwc_log%d_%d" % (pre, resa))
+            rc, out, err = sh(["gcc", "-O0", "-w", "-D__dso_handle=verif_dso_handle", "-DVERIF_NATIVE", "-DLOGSITES", "-DPRE=%d" % pre, "-DSITE=-1", "-DNSITES=%d" % nsites,
+                               "-DRESA=%d" % resa, "-DRESB=0", "-I", K.HERE, "-I", work, h, "-o", exe], timeout=120)
+            if rc != 0:
+                raise EngineError("native site-discovery build failed: " + err[-400:])
+            for ka in (3, 5):                      # key already indexed (3, when there is an old key) / fresh (5)
+                rc, out, err = sh([exe] + (["3"] if pre else []) + [str(ka), "6"], timeout=20)
+                for mm in re.finditer(r"^SITE (\d+) (\w+)$", out, re.M):
+                    k = int(mm.group(1))
+                    rset[resa].add(k)
+                    kinds[k]["target"] = mm.group(2) if kinds[k].get("target", mm.group(2)) == mm.group(2) else "mixed"
+    if not (reach[0] | reach[1]):
+        raise EngineError("site discovery found no yield site on lane A's path")
+    return {"h": h, "cpp": cpp, "nlines": nlines, "sites": kinds, "nsites": nsites, "reach": reach, "reach0": reach0}
+
+
+def _fwc_configs(p, tier):
+    """(site, RESA, RESB, PRE).  Lane B runs, as one step, before the access at `site` of lane A (site == nsites: after A returned).
+    quick: every write of lane A to shared memory (atomic read-modify-writes / stores, plain stores outside node memory) and `after`, one
+    reservation state each; thorough: every access on A's path (reads too); the writes with two complementary reservation states and with no old key."""
+    cfgs = []
+    n = p["nsites"]
+    allsites = sorted(p["reach"][0] | p["reach"][1]) + [n]
+    flip = 0
+    for k in allsites:
+        info = p["sites"].get(k, {"kind": "after", "target": "shared"})
+        write = k == n or info["kind"] == "atomic-write" or (info["kind"] == "store" and info.get("target") != "node")
+        if tier == "quick" and not write:
+            continue
+        ras = [r for r in (0, 1) if k == n or k in p["reach"][r]]
+        flip ^= 1
+        ra = ras[flip % len(ras)]
+        cfgs.append((k, ra, flip, 1))
+        if tier != "quick" and write:
+            ra2 = ras[(flip + 1) % len(ras)]
+            cfgs.append((k, ra2, 1 - flip, 1))
+            if k == n or k in p["reach0"][ra]:
+                cfgs.append((k, ra, 1 - flip, 0))
+    return cfgs
+
+
+def _fwc_obligation(p, cfg, tier):
+    site, ra, rb, pre = cfg
+    info = p["sites"].get(site, {"kind": "after lane A returned", "statement": "", "function": ""})
+    name = "findOrInsert+fetch/laneB-before-site=%s/%s/resA=%d/resB=%d/old-keys=%d" % ("after" if site == p["nsites"] else site, info["kind"].replace(" ", "-"), ra, rb, pre)
+    return K.Obligation(name, [p["h"]], defines=["PRE=%d" % pre, "SITE=%d" % site, "NSITES=%d" % p["nsites"], "RESA=%d" % ra, "RESB=%d" % rb], unwind=3,
+                        timeout=120 if tier == "quick" else 900, extra=["--pointer-check", "--bounds-check"], includes=[os.path.dirname(p["h"])],
+                        meta={"lane_B_runs_before": dict(info, site=site), "lane_A_has_reservation": bool(ra), "lane_B_has_reservation": bool(rb), "old_keys": pre,
+                              "keys": "A's and B's key symbolic in 0..7 (equal or different, old or fresh)", "_fwc": cfg})
+
+
+def _fwc_replay(work, p, o):
+    """native replay on the IR-derived C with lane B forced at the same site"""
+    site, ra, rb, pre = o.meta["_fwc"]
+    names = ["FC_PK%d" % i for i in range(pre)] + ["FC_KA", "FC_KB"]
+    vals = [_int64(o.res, n) for n in names]
+    if any(v is None for v in vals):
+        return None, "inputs could not be read from the trace", vals, ""
+    defs = ["-DPRE=%d" % pre, "-DSITE=%d" % site, "-DNSITES=%d" % p["nsites"], "-DRESA=%d" % ra, "-DRESB=%d" % rb, "-DVERIF_NATIVE"]
+    exe = os.path.join(work, "rpfwc_%d_%d_%d_%d" % (site, ra, rb, pre))
+    rc, out, err = sh(["gcc", "-O0", "-w", "-D__dso_handle=verif_dso_handle"] + defs + ["-I", K.HERE, "-I", work, p["h"], "-o", exe], timeout=120)
+    cmd = "gcc -O0 -w -D__dso_handle=verif_dso_handle %s -I /verif/engine_k -I . hfwc.c -o replay && ./replay %s" % (" ".join(defs), " ".join(str(v) for v in vals))
+    if rc != 0:
+        return None, "native replay build failed: " + err[-400:], vals, cmd
+    rc, out, err = sh([exe] + [str(v) for v in vals], timeout=20)
+    crashed = rc < 0 or rc in (139, 134)
+    return ((rc == 3 and "ASSERTION-FAILED" in out) or crashed), "natively compiled IR-derived C, lane B forced at the site: rc=%d %s; inputs %s" % (
+        rc, out.strip()[-300:], dict(zip(names, vals))), vals, cmd
 
 
 def run(tier, seed, only=None):
@@ -960,6 +1059,12 @@ def run(tier, seed, only=None):
             obls += [_fw_obligation(pf, c, tier) for c in _fw_configs(tier)]
         except EngineError as e:
             pf, fw_error = None, str(e)[:500]
+        fwc_error = None
+        try:
+            pc = _prepare_fwc(work, tier)
+            obls += [_fwc_obligation(pc, c, tier) for c in _fwc_configs(pc, tier)]
+        except EngineError as e:
+            pc, fwc_error = None, str(e)[:500]
         if only:
             obls = [o for o in obls if only in o.name]
         K.run_all(obls, jobs=6)
@@ -967,7 +1072,27 @@ def run(tier, seed, only=None):
         if fw_error:
             dropped.append({"obligation": "findOrInsert/*", "reason": "kernel could not be prepared: " + fw_error})
             res.inconc("ConcurrentFlyweight::findOrInsert kernel could not be prepared: " + fw_error)
+        if fwc_error:
+            dropped.append({"obligation": "findOrInsert+fetch/*", "reason": "kernel could not be prepared: " + fwc_error})
+            res.inconc("two-lane ConcurrentFlyweight kernel could not be prepared: " + fwc_error)
         for o in obls:
+            if "_fwc" in o.meta:
+                if o.verdict == "violated":
+                    failed = "; ".join(sorted(set(d for n, d in o.res.failed)))
+                    ok, info, vals, cmd = _fwc_replay(work, pc, o)
+                    mine = sorted(set(d_ for n, d_ in o.res.failed if re.match(r"line \d+ [a-z]", d_) and "dereference" not in d_)) or sorted(set(d_ for n, d_ in o.res.failed))
+                    if ok:
+                        d = K.save_replay(PID, re.sub(r"[^A-Za-z0-9_.-]", "_", o.name)[:100], {
+                            "hfwc.c": open(pc["h"]).read(), "fwc_y.c": open(os.path.join(work, "fwc_y.c")).read(), "fwc.cpp": FWC_WRAPPER, "trace.txt": o.res.out[-30000:],
+                            "README": "%s\nlane B runs before: %s\nfailed: %s\nreproduced: %s\nrebuild: %s\n" % (o.name, o.meta["lane_B_runs_before"], failed, info, cmd)})
+                        res.violation("findOrInsert-2lanes:%s" % re.sub(r"[^A-Za-z0-9]+", "-", re.sub(r"^line \d+ ", "", mine[0]))[:70],
+                                      "ConcurrentFlyweight::findOrInsert / fetch with a second lane: %s [%s; %s]" % (failed[:600], o.name, info), d)
+                    else:
+                        res.inconc("counterexample for %s (%s) did not reproduce natively: %s" % (o.name, failed[:300], info))
+                elif o.verdict != "holds":
+                    res.inconc("%s: %s" % (o.name, o.why))
+                    dropped.append({"obligation": o.name, "reason": o.why[:200]})
+                continue
             if "_fw" in o.meta:
                 if o.verdict == "violated":
                     failed = "; ".join(sorted(set(d for n, d in o.res.failed)))
@@ -1007,6 +1132,7 @@ def run(tier, seed, only=None):
         for o in obls:
             o.meta.pop("_cfg", None)
             o.meta.pop("_fw", None)
+            o.meta.pop("_fwc", None)
         nprops = sum(o.res.n_props for o in obls if o.res)
         res.coverage = {
             "explanation": "ConcurrentInsertOnlyHashMap<SeqConcurrentLanes,int,int,identity hash>::get decided by CBMC on the IR-derived C: one query per "
@@ -1016,13 +1142,20 @@ def run(tier, seed, only=None):
                            "findOrInsert, sequential: from every table of 0..3 indexed keys (symbolic keys and indices), every lane state (no reservation / "
                            "a reserved slot with its prepared node) and every NextSlot <= 6 of 8 slots: an indexed key returns its index and keeps the lane's "
                            "reservation, a fresh key gets the reserved (or next free) slot, unique among the indices, the slot points to its entry, the "
-                           "reservation is consumed and NextSlot advances exactly when a slot is reserved.",
+                           "reservation is consumed and NextSlot advances exactly when a slot is reserved.  (d) the same findOrInsert on lane A with a second lane B "
+                           "running, as one step placed before a chosen shared access of A (every atomic access, every plain load/store through a pointer in "
+                           "findOrInsert and the inlined get; the site is enumerated outside the query), a complete findOrInsert(kB) through its own lane followed "
+                           "at once by fetch(returned index): the fetched key is kB (slot filled and pointing to the entry from the moment the node is published), "
+                           "then A fetches its own index; equal keys get the same index and are inserted by one lane only, different keys different indices; every "
+                           "key's slot points to its entry; the losing lane keeps its reservation with an empty slot that is nobody's index; the lanes never share a "
+                           "reserved slot; NextSlot counts the reservations.",
             "obligations": len(obls), "discharged": len(held),
             "properties_decided": nprops,
             "exhaustive": False,
             "functions_encoded": ["souffle::ConcurrentInsertOnlyHashMap<SeqConcurrentLanes,int,int,IdHash>::get", "::node", "::weakFind (translation validation only)",
                                   "souffle::SeqConcurrentLanes::lock/unlock", "souffle::details::Factory<int>::replace",
-                                  "souffle::ConcurrentFlyweight<SeqConcurrentLanes,int,IdHash>::findOrInsert (+ Handle::clear, the inlined but unreachable tryGrow), ::fetch"],
+                                  "souffle::ConcurrentFlyweight<SeqConcurrentLanes,int,IdHash>::findOrInsert (+ Handle::clear, the inlined but unreachable tryGrow), ::fetch "
+                                  "(one lane sequentially; two lanes with lane B as an environment step)"],
             "atomic_steps_of_get": p["sites"],
             "source": {HDR: common.file_sha(common.repo_file(HDR)), PAR: common.file_sha(common.repo_file(PAR)), FW_HDR: common.file_sha(common.repo_file(FW_HDR))},
             "bounds": {"initial nodes": "0..3 (%s; every table state with that many nodes: distinct symbolic keys)" % ("all counts x all interference levels" if tier == "thorough" else "quick: the combinations listed in samples"),
@@ -1031,7 +1164,11 @@ def run(tier, seed, only=None):
                        "lanes": "the operation's lane; other lanes only through their insertions", "memory_model": "SC"},
             "queries": sum((1 if o.res else 0) + (1 if o.wres else 0) for o in obls),
             "solver_time_s": round(sum((o.res.time if o.res else 0) + (o.wres.time if o.wres else 0) for o in obls), 1),
-            "translation_validation_lines": p["nlines"] + (pf["nlines"] if pf else 0),
+            "translation_validation_lines": p["nlines"] + (pf["nlines"] if pf else 0) + (pc["nlines"] if pc else 0),
+            "two_lane_yield_sites": ({"sites_in_findOrInsert_and_get": pc["nsites"], "reachable_on_lane_A": sorted(pc["reach"][0] | pc["reach"][1]),
+                                      "by_kind": {k: sum(1 for v in pc["sites"].values() if v["kind"] == k) for k in ("atomic-write", "atomic-read", "store", "load")},
+                                      "selection": "quick: lane A's writes to shared memory (atomic writes, plain stores outside node memory) + after A returned, one reservation "
+                                                   "state each; thorough: every access on A's path, two complementary reservation states, writes also with no old key"} if pc else None),
             "checker_cmd": obls[0].res.cmd if obls and obls[0].res else "",
             "samples": [o.sample() for o in obls],
             "dropped_from_the_claim": dropped,
@@ -1040,7 +1177,8 @@ def run(tier, seed, only=None):
                 "(its concurrency mode rejects dereferences of pointers read from shared memory: bucket heads, Next links); replaced by the environment-insertion model above, which is exact for what another lane's get() does to shared memory under SC",
                 "growth: tryGrow (lock-all, rehash) is cut out of the IR and asserted unreachable (MaxSizeBeforeGrow = 1000); iteration across growth",
                 "the constructor (ToPrime table, >= 13 buckets): the table is set up with 1 or 2 buckets by the harness",
-                "ConcurrentFlyweight: concurrent findOrInsert (two lanes racing for the same key: only the hash-map level is covered by (b)), growth of the slot "
+                "ConcurrentFlyweight: more than one interfering lane step, lane B interleaved step by step (B is one atomic step: sound for what A observes, and for B's "
+                "own fetch only at B's end), same-lane contention (MutexConcurrentLanes), canonical index layout (old keys 0..PRE-1, lane slots PRE, PRE+1), growth of the slot "
                 "array (tryGrow, lock-all), the Iterator (iteration lists every symbol once, also across growth), setNumLanes",
                 "SymbolTableImpl / RecordTableImpl (std::string keys, per-arity record maps, nil record)",
                 "MutexConcurrentLanes (std::mutex): same-lane exclusion is not modelled, every lane is its own lane",
